@@ -81,6 +81,7 @@ type e2eOutcome struct {
 	mutationsHit int
 	actions      int
 	recvOps      int
+	recvOpsQuiet int // receiver operations counted when the second act (QuietMutations) began
 	debris       int
 	crashImages  int
 	imageBad     []string
@@ -403,6 +404,9 @@ func e2eRun(c *Ctx, seed int64, spec *e2eSpec, dir string) *e2eOutcome {
 				// second act: new versions appear only now, so that two versions of a
 				// name are never in flight together
 				quietDone = true
+				mu.Lock()
+				out.recvOpsQuiet = recvOps
+				mu.Unlock()
 				if spec.QuietGapHours > 0 {
 					time.Sleep(time.Duration(spec.QuietGapHours) * time.Hour)
 					w.recv.restamp()
